@@ -144,7 +144,7 @@ def gen_design(r, sim=False, plain_names=True, rich=True):
 
     def node(depth, no_doms=False):
         n = {"n": None, "t": r.choice(TYPES), "doms": [], "st": [], "clk": [], "mem": None, "inst": None, "io": None,
-             "subs": [], "ctl": [], "lib": [], "xf": None}
+             "subs": [], "ctl": [], "lib": [], "xf": None, "mctl": []}
         if rich and depth > 0 and r.random() < 0.3:
             k = r.random()
             if k < 0.4:
@@ -159,6 +159,23 @@ def gen_design(r, sim=False, plain_names=True, rich=True):
                 n["xf"] = ["enable", r.choice(doms), r.randrange(nsig)]
         if not sim and not no_doms and r.random() < 0.15:
             n["doms"] = [r.choice(doms)]
+        if rich and r.random() < 0.5:
+            # an If / Switch / FSM block that assigns in 2-4 domains and is the FIRST thing the module does, so the
+            # key order of Fragment.statements is decided by Module._pop_ctrl alone
+            for _ in range(r.choice([1, 1, 2])):
+                nd_ = min(len(doms), r.randint(2, 4))
+                assigns = []
+                for d in r.sample(doms, nd_):
+                    dst = take()
+                    if dst is None:
+                        break
+                    assigns.append([d, dst, r.randrange(nsig)])
+                if len(assigns) >= 2:
+                    n["mctl"].append([r.choice(["mif", "msw", "mfsm"]), r.randrange(nsig), assigns, r.choice(doms),
+                                      r.randint(1, len(assigns) - 1)])
+                else:
+                    for _, dst, _ in assigns:
+                        driven.discard(dst)
         for _ in range(r.randint(0, 3)):
             dst = take()
             if dst is None:
@@ -255,6 +272,89 @@ def gen_design(r, sim=False, plain_names=True, rich=True):
     return {"sigs": sigs, "doms": doms, "top": top, "ports": ports, "free": sorted(free())}
 
 
+class _SigList(list):
+    pass
+
+
+def node_list(D):
+    """the nodes of a design in the order build_design creates them (pre-order)"""
+    out = []
+
+    def walk(n):
+        out.append(n)
+        for s_ in n["subs"]:
+            walk(s_)
+    walk(D["top"])
+    return out
+
+
+def mctl_domains(c):
+    """domains of a multi-domain block in the order they first occur inside it"""
+    kind, sel, assigns, fdom, k = c
+    ds = [d for d, _, _ in assigns[:k]]
+    if kind == "mfsm":
+        ds.append(fdom)                  # m.next in state S0 is a statement of the FSM's domain
+    ds += [d for d, _, _ in assigns[k:]]
+    if kind == "mif":
+        ds.append(assigns[0][0])
+    return ds
+
+
+def emit_seq(n):
+    """the domains of the statements of a node's Module in the order build_design adds them (structure of the
+    generated module; first occurrences and renaming are the model's: Repro.stmt_keys)"""
+    seq = []
+    for c in n.get("mctl", []):
+        seq += mctl_domains(c)
+    for dom, *_ in n["st"]:
+        seq.append(dom)
+    for c in n.get("ctl", []):
+        seq += ["comb", c[1]] if c[0] == "fsm" else [c[1]]
+    for c in n.get("lib", []):
+        if c[0] != "ffs":
+            seq.append("comb")
+    for _ in n["clk"]:
+        seq.append("comb")
+    if n["mem"]:
+        seq.append("comb")
+    if any(c[0] == "mfsm" for c in n.get("mctl", [])) or any(c[0] == "fsm" for c in n.get("ctl", [])):
+        seq.append("comb")               # Module.elaborate adds the FSMs' `ongoing` comparisons last, under "comb"
+    return seq
+
+
+def keys_term(D):
+    """Gallina list of (DomainRenamer maps innermost first, domain sequence), one per node"""
+    out = []
+
+    def walk(n, maps):
+        xf = n.get("xf")
+        if xf and xf[0] == "rename":
+            maps = [xf[1]] + maps        # the maps of the ancestors apply after the node's own
+        ms = "[" + "; ".join("[" + "; ".join(f"({qn(a)}, {qn(b_)})" for a, b_ in mp) + "]" for mp in maps) + "]"
+        out.append(f"({ms}, {names_lit(emit_seq(n))})")
+        for s_ in n["subs"]:
+            walk(s_, maps)
+    walk(D["top"], [])
+    return "[" + "; ".join(out) + "]"
+
+
+def statement_keys(top, objs):
+    """keys of Fragment.statements of every generated node's fragment, in node order"""
+    from amaranth.hdl._ir import Fragment
+    where = {id(o): i for i, o in enumerate(objs)}
+    found = {}
+
+    def walk(frag):
+        if frag.origins:
+            i = where.get(id(frag.origins[0]))
+            if i is not None:
+                found[i] = list(frag.statements)
+        for sub, _, _ in frag.subfragments:
+            walk(sub)
+    walk(Fragment.get(top, None))
+    return [found.get(i) for i in range(len(objs))]
+
+
 _ENUMS = {}
 
 
@@ -305,8 +405,37 @@ def build_design(D):
 
     def mk(n):
         m = Module()
+        my_index = len(objs)
+        objs.append(None)
         for d in n["doms"]:
             m.domains += ClockDomain(d)
+        for bi, (kind, sel, assigns, fdom, k) in enumerate(n.get("mctl", [])):
+            first, rest = assigns[:k], assigns[k:]
+            if kind == "mif":
+                with m.If(val(sel)[0]):
+                    for d, dst, src in first:
+                        m.d[d] += sigs[dst].eq(val(src))
+                with m.Else():
+                    for d, dst, src in rest + first[:1]:
+                        m.d[d] += sigs[dst].eq(~val(src))
+            elif kind == "msw":
+                with m.Switch(val(sel).as_unsigned()):
+                    with m.Case(0):
+                        for d, dst, src in first:
+                            m.d[d] += sigs[dst].eq(val(src))
+                    with m.Default():
+                        for d, dst, src in rest:
+                            m.d[d] += sigs[dst].eq(val(src) + 1)
+            else:
+                with m.FSM(domain=fdom, name=f"mfsm{bi}"):
+                    with m.State("S0"):
+                        for d, dst, src in first:
+                            m.d[d] += sigs[dst].eq(val(src))
+                        m.next = "S1"
+                    with m.State("S1"):
+                        for d, dst, src in rest:
+                            m.d[d] += sigs[dst].eq(val(src) ^ 1)
+                        m.next = "S0"
         for dom, dst, s1, s2, op in n["st"]:
             a, b = val(s1), val(s2)
             e = [a + b, a ^ b, Mux(a[0], b, ~b)][op]
@@ -392,16 +521,22 @@ def build_design(D):
                 obj = ResetInserter({xf[1]: val(xf[2])[0]})(obj)
             else:
                 obj = EnableInserter({xf[1]: val(xf[2])[0]})(obj)
+        objs[my_index] = obj
         return obj
 
+    objs = []
     top = mk(D["top"])
     ports = [sigs[i] if nm is None else (nm, sigs[i], None) for nm, i in D["ports"]]
-    return top, sigs, ports, mems
+    sigs_list = _SigList(sigs)
+    sigs_list.objs = objs                # the elaboratable of every node, in the order of node_list(D)
+    return top, sigs_list, ports, mems
 
 
 def frag_term(n):
     """Gallina `frag` of a design node as DomainCollector sees it (sets: order irrelevant)."""
     used = []
+    for c in n.get("mctl", []):
+        used += mctl_domains(c)
     for dom, *_ in n["st"]:
         used.append(dom)
     for c in n.get("ctl", []):
@@ -476,8 +611,34 @@ def ports_consistent(pnames, rports, ionames=()):
     return True
 
 
+def apply_mutation(which):
+    """in-memory seeded changes of amaranth, used only to measure what the generators expose (C09_MUTATE=<which>
+    in the environment of the workers; never touches /repo)"""
+    if which == "switch_set":
+        # Module._pop_ctrl, Switch branch: the dict collecting the domains driven inside m.Switch becomes a set
+        import inspect, textwrap
+        from amaranth.hdl import _dsl
+        src = textwrap.dedent(inspect.getsource(_dsl.Module._pop_ctrl))
+        old = ("        domains = {}\n        for _patterns, stmts, _src_loc in switch_cases:\n"
+               "            for domain in stmts:\n                domains[domain] = None\n")
+        new = ("        domains = set()\n        for _patterns, stmts, _src_loc in switch_cases:\n"
+               "            for domain in stmts:\n                domains.add(domain)\n")
+        assert old in src
+        ns = {}
+        exec(compile(src.replace(old, new), _dsl.__file__, "exec"), _dsl.__dict__, ns)
+        _dsl.Module._pop_ctrl = ns["_pop_ctrl"]
+    elif which:
+        raise ValueError(which)
+
+
+def design_keys(D):
+    """keys of Fragment.statements of every generated module of a freshly built copy of the design"""
+    top, sigs, _, _ = build_design(D)
+    return statement_keys(top, sigs.objs)
+
+
 def elaborate_obs(D):
-    """(created domains in callback order, design.ports names, rtlil port names, rtlil text)"""
+    """(created domains in callback order, design.ports names, rtlil port names, rtlil text, Design)"""
     from amaranth.hdl import ClockDomain
     from amaranth.hdl._ir import Fragment
     from amaranth.back import rtlil
@@ -697,6 +858,8 @@ def used_domains(D):
     """clock domains visible at the top of a simulable design (no locally declared domains there)"""
     def walk(n):
         out = []
+        for c in n.get("mctl", []):
+            out += mctl_domains(c)
         for dom, *_ in n["st"]:
             out.append(dom)
         for c in n.get("ctl", []):
@@ -1096,7 +1259,10 @@ def run_impl(c):
         ionames = {nm for nm, conn, _ in design.ports if isinstance(conn, IOPort)}
         if not ports_consistent(pnames, rports, ionames):
             return [-7] + enc_names([nm for _, nm in rports])     # RTLIL port order is not that of design.ports
-        return [1] + enc_names(called) + enc_names(pnames)
+        out = [1] + enc_names(called) + enc_names(pnames)
+        for ks in design_keys(c["design"]):
+            out += [-8] if ks is None else enc_names(ks)          # -8: the module's fragment was not found
+        return out
     if k == "names":
         try:
             design = elaborate_obs(c["design"])[4]
@@ -1142,7 +1308,7 @@ def coq_term(c):
     if k == "dom":
         D = c["design"]
         up = "; ".join(f"({qopt(nm)}, {qn(D['sigs'][i][0])})" for nm, i in D["ports"])
-        return f"k_dom {frag_term(D['top'])} [{up}] {kid_term(D['top'])}"
+        return f"k_dom {frag_term(D['top'])} [{up}] {kid_term(D['top'])} {keys_term(D)}"
     if k == "names":
         if c["frs"] is None:
             return "[1]"                              # generation-time failure: the model predicts a normal answer
@@ -1167,7 +1333,7 @@ def coq_term(c):
 def explain(c):
     return {"add": "[1, names returned by the _add_name calls, size of the set] | [-1,1] AssertionError (impossible since cb9d97a; model: out of fuel)",
             "ports": "[1, final port names] | [-1,1] AssertionError (impossible since cb9d97a) | [-1,2] TypeError",
-            "dom": "[1, domains in the order missing_domain was called, design.ports names (= RTLIL port order)]",
+            "dom": "[1, domains in the order missing_domain was called, design.ports names (= RTLIL port order), then per generated module the keys of Fragment.statements in order]",
             "names": "per fragment [1, signal_names, io_port_names, subfragment names]; [0] = ordered inputs not reproducible",
             "plan": "[1, bytes hashed by digest(), archive members with date_time and compress_type, sorted listing after extract() | -1,1 (`..` component)] | [-1,1] duplicate file | [-1,3] absolute name (ValueError)",
             "reset": "[pre-state reproduced, engine state after reset()]"}.get(c["k"], "")
@@ -1243,6 +1409,7 @@ def sim_trace(D, S):
 
 def worker_main():
     job = json.load(sys.stdin)
+    apply_mutation(os.environ.get("C09_MUTATE", ""))
     out = {"hashseed": os.environ.get("PYTHONHASHSEED"), "designs": [], "sims": [], "plans": []}
     from amaranth.back import rtlil
     for D in job["designs"]:
@@ -1250,7 +1417,8 @@ def worker_main():
             called, pnames, rports, text, _ = elaborate_obs(D)
             top, _, ports, _ = build_design(D)
             nosrc = rtlil.convert(top, ports=ports, emit_src=False)
-            out["designs"].append({"rtlil": sha(text), "nosrc": sha(nosrc), "created": called, "ports": rports})
+            out["designs"].append({"rtlil": sha(text), "nosrc": sha(nosrc), "created": called, "ports": rports,
+                                   "statement_keys": design_keys(D)})
         except Exception as e:
             out["designs"].append({"error": type(e).__name__})
     for D, S in job["sims"]:
@@ -1443,6 +1611,8 @@ def design_features(D):
     def walk(n):
         for c in n.get("ctl", []):
             out.add(c[0])
+        for c in n.get("mctl", []):
+            out.add("multi-domain-" + c[0][1:] + "-first")
         for c in n.get("lib", []):
             out.add(c[0])
         if n.get("xf"):
